@@ -725,6 +725,8 @@ func TestVerifBoundedGrammar(t *testing.T) {
 				if hinted := firstOf(sen.rules, []string{"oC_Hint", "oC_QueryOptions", "oC_AnyCypherOption", "oC_CypherOption"}); hinted == "" {
 					if in, outBag := wordBag(sen.text), wordBag(text); !reflect.DeepEqual(in, outBag) {
 						fail("C07", "content of the sentence (%s) is not the content of the model: %q is modelled as %q", sen.via, sen.text, text)
+						// also C08: a model of only part of the input, handed out with a nil error, is a partially built model
+						fail("C08", "parsing returns no error and a model that leaves out part of the sentence (%s): %q is modelled as %q", sen.via, sen.text, text)
 					}
 				}
 			}
@@ -742,7 +744,7 @@ func TestVerifBoundedGrammar(t *testing.T) {
 			}
 		}
 		// ---- C08: truncations and deletions ----
-		if si%max(1, 8/bound) == 0 {
+		if (only == "" || only == "C08") && si%max(1, 2/bound) == 0 {
 			for cut := 0; cut < len(sen.text); cut++ {
 				mutants++
 				totality(sen.text[:cut], "truncated sentence")
@@ -751,6 +753,36 @@ func TestVerifBoundedGrammar(t *testing.T) {
 				if strings.ContainsRune("()[]{}'`\".:|*-<>=,$", rune(sen.text[del])) {
 					mutants++
 					totality(sen.text[:del]+sen.text[del+1:], "sentence with one delimiter removed")
+				}
+			}
+			// a truncation that ends in the first character(s) of a token the parser may commit to on one token of
+			// lookahead (a parameter, a parenthesised expression, a list, a map, a quoted name, a property lookup):
+			// at every position a token can end (before a blank, a delimiter, or the end)
+			for cut := 1; cut <= len(sen.text); cut++ {
+				if cut < len(sen.text) && !strings.ContainsRune(" ()[]{},:", rune(sen.text[cut])) {
+					continue
+				}
+				for _, frag := range []string{" $", " (", " [", " {", " `", " n.", " -", " $ ", " 1 $"} {
+					mutants++
+					totality(sen.text[:cut]+frag, "truncated sentence continued by "+strconv.Quote(frag))
+				}
+			}
+			// bytes no token of the grammar can contain (outside quoted text and comments, which these sentences are
+			// chosen not to have): wherever one is put, the text is not a sentence and the answer is an error - a model
+			// of the rest of the text with a nil error is a model of part of the input
+			if !strings.ContainsAny(sen.text, "'\"`/") {
+				o0 := guardedParse(frontend.NewContext(), sen.text)
+				for at := 0; at <= len(sen.text); at++ {
+					if at > 0 && at < len(sen.text) && sen.text[at] != ' ' && sen.text[at-1] != ' ' && at%3 != 0 {
+						continue
+					}
+					for _, foreign := range []string{"#", "!", "?", "@", "&", "\\", "\x80", "\xc3", "§"} {
+						mutants++
+						text := sen.text[:at] + foreign + sen.text[at:]
+						if m := totality(text, "sentence with a byte no token can contain"); m.panicked == nil && m.err == nil && m.model != nil {
+							fail("C08", "parsing returns a model and no error for a text with a byte no token of the grammar can contain: %q (the sentence without it: error %v)", text, o0.err)
+						}
+					}
 				}
 			}
 		}
@@ -762,6 +794,22 @@ func TestVerifBoundedGrammar(t *testing.T) {
 	repeats := []string{"match (a)-[:A|A]->(b) return b", "match (a)-[r:A|:A|B*1..2]->(b) return r", "match (n:L:L) return n", "match (n {a: 1, a: 2}) return n", "match (n), (n) return n, n", "match (n) return n.a, n.a order by n.a, n.a", "match (n) set n:L:L, n.a = 1, n.a = 1 return n", "match (n) with n, n.a as x, n.a as y return x, y", "return [1, 1], {k: 1, k: 1}", "match p = (a)-[:A|A|A]-(a) return p, p"}
 	for _, r := range repeats {
 		totality(r, "repeated element")
+	}
+	// operand suffixes (subscripts, slices, lookups and labels after them) in their plainest spelling: whether or not the
+	// parser supports them, what it hands out with a nil error must be a model of the whole text
+	suffixes := []string{"return a[0]", "return a[0..1]", "return a[..1]", "return a[1..]", "return a[..]", "match (n) where n.list[0] = 1 return n", "return [1, 2, 3][0]",
+		"match (n) return n.a[1].b", "match (n) return n[0][1]", "return a[b[0]]", "return {k: a[0]}", "return toLower(a[0])", "match (n) return n.a[0] + n.b[1]",
+		"match (n) where n[0]:L return n", "return a[0] as x order by x", "match (n) where n.a in n.b[0..2] return n", "return $p[0]", "return (a)[0]", "return 'abc'[0]"}
+	for _, q := range suffixes {
+		o := totality(q, "operand with a suffix")
+		if o.panicked != nil || o.err != nil || o.model == nil {
+			continue
+		}
+		if text, ferr := format.RegularQuery(o.model, false); ferr == nil {
+			if in, outBag := wordBag(q), wordBag(text); !reflect.DeepEqual(in, outBag) {
+				fail("C08", "parsing returns no error and a model that leaves out part of the text: %q is modelled as %q", q, text)
+			}
+		}
 	}
 	for _, h := range hostile {
 		totality(h, "hostile input")
@@ -791,7 +839,7 @@ func TestVerifBoundedGrammar(t *testing.T) {
 			fmt.Printf("SENTENCE %-45s %s\n", sen.via, sen.text)
 		}
 	}
-	res := map[string]any{"name": "grammar", "bound": fmt.Sprintf("%d sentences covering every alternative and optional element of the %s grammar (%d accepted and round-tripped, %d through unsupported rules, %d through rules the default context forbids), %d truncation/deletion mutants, %d hostile inputs, nesting depth %d", len(sentences), "Cypher.g4", accepted, rejectedUnsupported, rejectedDefault, mutants, len(hostile), depth), "cases": cases, "exhaustive": false, "failures": failures}
+	res := map[string]any{"name": "grammar", "bound": fmt.Sprintf("%d sentences covering every alternative and optional element of the %s grammar (%d accepted and round-tripped, %d through unsupported rules, %d through rules the default context forbids), %d truncation, deletion, continuation and foreign-byte mutants, %d hostile inputs, nesting depth %d", len(sentences), "Cypher.g4", accepted, rejectedUnsupported, rejectedDefault, mutants, len(hostile), depth), "cases": cases, "exhaustive": false, "failures": failures}
 	out, _ := json.Marshal(res)
 	fmt.Println("BOUNDED-RESULT " + string(out))
 	if len(failures) > 0 {
